@@ -192,6 +192,28 @@ func signHonest(c *core.Case, f txF, sg signerSpec, k *keyT) (v, r, s *big.Int, 
 	} else {
 		c.Violation("tx:sign-recover:SignTx:"+sg.kind(), "types.SignTx fails: "+err.Error(), map[string]interface{}{"signer": sg.String()})
 	}
+	// a transaction object that was looked at before it is signed, and one that is signed again by somebody else:
+	// what the object memoised (hash, size, sender) must not follow it into the new signature
+	if tx != nil && ok {
+		warm := unsignedTx(f)
+		_, _ = warm.Hash(), warm.Size()
+		if wtx, werr := types.SignTx(signer, warm, k.priv); werr == nil {
+			run.Count("tx_signed_after_inspection", 1)
+			if wtx.Hash() != tx.Hash() {
+				c.Violation("tx:memoised-fields-survive-signing:hash", fmt.Sprintf("a transaction whose Hash()/Size() were read before SignTx has hash %x after signing; the same transaction signed without reading them first has %x", wtx.Hash(), tx.Hash()),
+					map[string]interface{}{"signer": sg.String(), "key": k.i})
+			}
+		}
+		other := allKeys()[(k.i+1)%len(allKeys())]
+		if rtx, rerr := types.SignTx(signer, tx, other.priv); rerr == nil {
+			from, serr := types.Sender(signer, rtx)
+			run.Count("tx_resigned_by_another_key", 1)
+			if serr != nil || from != other.addr {
+				c.Violation("tx:memoised-fields-survive-signing:sender", fmt.Sprintf("a signed transaction whose sender had been recovered (%x) was signed again by another key: types.Sender returns %x (err %v), the new signer is %x", k.addr, from, serr, other.addr),
+					map[string]interface{}{"signer": sg.String(), "first_key": k.i, "second_key": other.i})
+			}
+		}
+	}
 	utx := unsignedTx(f)
 	h := signer.Hash(utx)
 	sig, err := crypto.Sign(h[:], k.priv)
